@@ -18,7 +18,7 @@ def maskTable : List (String × Bool × Bool × Nat × String × String) := [
   ("ts_vargmax", false, true, 0, "rolling_apply_idx", "std"),
   ("ts_vargmin", false, true, 0, "rolling_apply_idx", "std"),
   ("ts_vcorr", true, false, 0, "rolling2_apply", "std"),
-  ("ts_vcov", true, false, 0, "rolling2_apply", "std"),
+  ("ts_vcov", true, false, 2, "rolling2_apply", "std"),
   ("ts_vewm", true, false, 0, "rolling_apply", "std"),
   ("ts_vfdiff", true, false, 0, "rolling_custom", "std"),
   ("ts_vkurt", true, false, 4, "rolling_apply", "std"),
